@@ -303,6 +303,15 @@ def expr_of_depth(draw, names, ops, depth):
         return _near_symmetric(draw, names, ops, depth)
     if depth >= 1 and draw(st.integers(0, 9)) == 0:
         return _simple_like(draw, names, ops, depth)
+    if depth >= 2 and draw(st.integers(0, 13)) == 0:
+        # the same sub-tree twice (the shape distribution produces: (x | z) & (y | z))
+        binary = [o for o in ops if o != "NOT"]
+        if binary:
+            z = draw(expr_of_depth(names, ops, depth - 2))
+            if "NOT" in ops and z[0] == "T" and draw(st.booleans()):
+                z = ["NOT", z]
+            o1, o2 = draw(st.sampled_from(binary)), draw(st.sampled_from(binary))
+            return [o1, [o2, draw(expr_of_depth(names, ops, depth - 2)), z], [o2, draw(expr_of_depth(names, ops, depth - 2)), z]]
     if depth >= 2 and "AND" in ops and "OR" in ops and draw(st.integers(0, 11)) == 0:
         return _clause_like(draw, names, ops, min(depth, 4))
     pool = list(ops) + (["NOT", "NOT"] if "NOT" in ops else [])
@@ -480,7 +489,10 @@ def model_specs(draw, profile: Profile, min_feats=1, max_feats=12, with_ctcs=Tru
                 e = draw(expr_of_depth(names, profile.ctc_ops, draw(st.integers(0, profile.ctc_depth))))
             cname = profile.ctc_names(draw, j) if profile.ctc_names else f"C{j}"
             ctcs.append({"name": cname, "ast": e})
-    return {"root": feats[0], "ctcs": ctcs}
+    model = {"root": feats[0], "ctcs": ctcs}
+    if ctcs and draw(st.integers(0, 3)) == 0:
+        model["share_nodes"] = True       # equal sub-trees of a constraint are one Node object (see build_node_shared)
+    return model
 
 
 def _add_wide_group(draw, profile, feats, names):
